@@ -1,7 +1,7 @@
 (* C18 -- format_with_inputs gives every section its own inputs and separator.
    GENERATED from Properties/src/C18.props by tools/mkprops.py; property theorems only. *)
 From SP Require Import Model.Template.
-From SP Require Import Proofs.ImplSpec Proofs.TemplateP Proofs.TemplateLaws.
+From SP Require Import Proofs.ImplSpec Proofs.TemplateP Proofs.TemplateLaws Proofs.FwiP.
 
 (* literals verbatim; section k contributes the results of running it on each of
    its inputs separately, joined by its separator; first error fails the call; the
@@ -68,6 +68,49 @@ Check C18_surplus_ignored :
   (idx + length (filter is_sec secs) <= length seps)%nat ->
   spec_fwi E secs (inputs ++ extra_i) (seps ++ extra_s) idx = spec_fwi E secs inputs seps idx.
 Print Assumptions C18_surplus_ignored.
+
+(* the sections numbered idx .. look at the slots idx .. of inputs and separators
+   and at nothing else: any two argument lists that agree there give the same result *)
+Theorem C18_only_own_slots :
+  forall (E : Env) (secs : list section) (inputs inputs' : list (list str)) (seps seps' : list str) (idx : nat),
+  (forall k, (idx <= k < idx + length (filter is_sec secs))%nat ->
+     nth k inputs [] = nth k inputs' [] /\ nth k seps [32%N] = nth k seps' [32%N]) ->
+  spec_fwi E secs inputs seps idx = spec_fwi E secs inputs' seps' idx.
+Proof. exact fwi_only_own_slots. Qed.
+Check C18_only_own_slots :
+  forall (E : Env) (secs : list section) (inputs inputs' : list (list str)) (seps seps' : list str) (idx : nat),
+  (forall k, (idx <= k < idx + length (filter is_sec secs))%nat ->
+     nth k inputs [] = nth k inputs' [] /\ nth k seps [32%N] = nth k seps' [32%N]) ->
+  spec_fwi E secs inputs seps idx = spec_fwi E secs inputs' seps' idx.
+Print Assumptions C18_only_own_slots.
+
+(* a template is its first part followed by its second part, whose sections are
+   numbered after those of the first *)
+Theorem C18_parts_compose :
+  forall (E : Env) (s1 s2 : list section) (inputs : list (list str)) (seps : list str) (idx : nat),
+  spec_fwi E (s1 ++ s2) inputs seps idx =
+    bind (spec_fwi E s1 inputs seps idx) (fun a =>
+      omap (app a) (spec_fwi E s2 inputs seps (idx + length (filter is_sec s1)))).
+Proof. exact fwi_app. Qed.
+Check C18_parts_compose :
+  forall (E : Env) (s1 s2 : list section) (inputs : list (list str)) (seps : list str) (idx : nat),
+  spec_fwi E (s1 ++ s2) inputs seps idx =
+    bind (spec_fwi E s1 inputs seps idx) (fun a =>
+      omap (app a) (spec_fwi E s2 inputs seps (idx + length (filter is_sec s1)))).
+Print Assumptions C18_parts_compose.
+
+Theorem C18_later_slots_do_not_matter :
+  forall (E : Env) (s1 : list section) (inputs inputs' : list (list str)) (seps seps' : list str) (idx : nat),
+  (forall k, (k < idx + length (filter is_sec s1))%nat ->
+     nth k inputs [] = nth k inputs' [] /\ nth k seps [32%N] = nth k seps' [32%N]) ->
+  spec_fwi E s1 inputs seps idx = spec_fwi E s1 inputs' seps' idx.
+Proof. exact fwi_later_slots_do_not_matter. Qed.
+Check C18_later_slots_do_not_matter :
+  forall (E : Env) (s1 : list section) (inputs inputs' : list (list str)) (seps seps' : list str) (idx : nat),
+  (forall k, (k < idx + length (filter is_sec s1))%nat ->
+     nth k inputs [] = nth k inputs' [] /\ nth k seps [32%N] = nth k seps' [32%N]) ->
+  spec_fwi E s1 inputs seps idx = spec_fwi E s1 inputs' seps' idx.
+Print Assumptions C18_later_slots_do_not_matter.
 
 (* an entry is only ever served for the very input and operations it was computed for *)
 Theorem C18_memo_isolation :
